@@ -19,13 +19,13 @@ ID = "C11"
 RULE = (
     "case = valid growth-grammar network (exponent a integer in 3/4 of the links) x engine {numpy, SX, MX} x a "
     "sequence of 1..3 option sets (6-bit masks, all 64 reachable) applied one after the other to the same network "
-    "objects x one input with ~40% negative densities/speeds/queues; plus, for the empty option set, a non-negative "
+    "objects (NumPy: optionally followed by a step fed with the very next_states objects under another option set) x one input with ~40% negative densities/speeds/queues; plus, for the empty option set, a non-negative "
     "input compared with the reference model. Non-trivial = at least one clamp is active (an input entry negative "
     "where its init flag is on, or a plain output entry negative where its next flag is on) and the compared entries "
     "are not NaN. Distinct = SHA-1 of the case."
 )
-BUDGET = {"quick": {"examples": 250, "shards": 4}, "thorough": {"examples": 4000, "shards": 16}}
-EXPECTED_LABELS = ("engine:numpy", "engine:SX", "engine:MX", "clamp:init:v", "clamp:init:rho", "clamp:init:w", "clamp:next:v",
+BUDGET = {"quick": {"examples": 250, "shards": 4}, "thorough": {"fuzz_runs": 3000, "examples": 4000, "shards": 16}}
+EXPECTED_LABELS = ("feedback", "engine:numpy", "engine:SX", "engine:MX", "clamp:init:v", "clamp:init:rho", "clamp:init:w", "clamp:next:v",
                    "clamp:next:rho", "clamp:next:w", "opts:none", "opts:all", "restep", "unclamped-negative-output",
                    "vsl:some", "origin:main", "origin:simp_lim")
 ASSUMPTIONS = ["entries whose plain result is NaN are skipped and counted (fmax(0, NaN) differs between libm and NumPy)",
@@ -47,6 +47,7 @@ def cases(draw):
         "state_pos": draw(gen_nets.states(sp, finite_only=True)),
         "engine": draw(st.sampled_from(["numpy", "SX", "MX"])),
         "masks": draw(st.lists(st.integers(0, 63), min_size=1, max_size=3)),
+        "feedback_mask": draw(st.one_of(st.none(), st.integers(0, 63))),
     }
 
 
@@ -78,6 +79,50 @@ def step_on(kind, sp, state, opts, built):
     lay = layout.Layout(sp, layout.element_order(net, els))
     res = F(*lay.args(0, state))
     return lay.parse(0, list(res) if isinstance(res, (list, tuple)) else [res])[0]
+
+
+def feedback(ctx, sp, case, shared):
+    net, els, _ = shared
+    opts = mask_to_opts(case["feedback_mask"])
+    state = case["state"]
+    ic, state2 = {}, {}
+    for i, el in els.items():
+        d = {}
+        if el.next_states:
+            d.update(el.next_states)  # same objects
+        for var in ("v_ctrl", "r", "q", "d"):
+            if var in state.get(i, {}):
+                d[var] = np.array(state[i][var], dtype=float)
+        if d:
+            ic[el] = d
+            state2[i] = {k: [float(x) for x in np.asarray(v, dtype=float).reshape(-1)] for k, v in d.items()}
+    if any(x != x for s_ in state2.values() for v in s_.values() for x in v):
+        return
+    ctx.label("feedback")
+    r = guarded(ctx, "numpy-feedback-step", lambda: net.step(init_conditions=ic, engine=NumpyEngine(), **S.opts_kwargs(opts), **S.pars_kwargs(sp)))
+    if crashed(r):
+        return
+    got = {i: {k: np.asarray(v, dtype=float).reshape(-1) for k, v in el.next_states.items()} for i, el in els.items() if el.next_states}
+    clipped = clip_state(state2, opts, INIT, ctx, "init")
+    plain = guarded(ctx, "numpy-step-plain", step_on, "numpy", sp, clipped, [], S.build(sp))
+    if crashed(plain):
+        return
+    scales = refmodel.scales(sp, clipped)
+    for i, vs in plain.items():
+        for var, arr in vs.items():
+            on = next((n for n, v in NEXT.items() if v == var), None) in opts
+            for k in range(len(arr)):
+                p = float(arr[k])
+                if p != p:
+                    ctx.count("nan_skipped")
+                    continue
+                exp = max(0.0, p) if on else p
+                x = float(got[i][var][k])
+                sc = scales[i][var][k]
+                tol = 1e-12 * sc + 1e-300 if math.isfinite(sc) else 0.0
+                if not (x == exp or abs(x - exp) <= tol):
+                    ctx.fail(f"numpy:{var}:feedback", f"numpy, options {opts}, fed with the previous step's next_states objects: {var}+ of {i}[{k}] = {x!r}, "
+                             f"but clamp(plain step of clamped input) = {exp!r}")
 
 
 def check_case(case, ctx):
@@ -125,6 +170,9 @@ def check_case(case, ctx):
                         ctx.fail(f"{kind}:{var}:{which}",
                                  f"{kind}, options {active} (step {step_no} on the same objects): {var}+ of {i}[{k}] = {x!r}, "
                                  f"but clamp(plain step of clamped input) = {exp!r} (plain {p!r})")
+    # simulation loop: the very next_states objects of the last step are fed back with another option set
+    if kind == "numpy" and case.get("feedback_mask") is not None:
+        feedback(ctx, sp, case, shared)
     # all options off: nothing is clamped (compare with the reference on an admissible input)
     state = case["state_pos"]
     got = guarded(ctx, f"{kind}-step-none", step_on, kind, sp, state, [], shared)
